@@ -277,6 +277,20 @@ def _dispatcher_problems():
             out.append("execute_action: LLMCallException is no longer re-raised")
         if name == "Exception" and (has_raise or has_return):
             out.append("execute_action: the `except Exception` branch now raises or returns (it must fall through to `return None, \"failed\"`)")
+        if name == "Exception":
+            # the handler must be total in the exception VALUE (Dispatch.handlerLog): it may build the filtered copy of the
+            # parameters and hand things to the logger, nothing else - no indexing, no parsing of str(e), no other calls
+            for n in ast.walk(h):
+                if isinstance(n, ast.Subscript):
+                    out.append(f"execute_action: the `except Exception` handler indexes a value (line {n.lineno}): not total in the exception value")
+                elif isinstance(n, ast.Call):
+                    f = n.func
+                    ok = (isinstance(f, ast.Attribute) and isinstance(f.value, ast.Name) and f.value.id == "log") or \
+                         (isinstance(f, ast.Attribute) and f.attr == "items" and isinstance(f.value, ast.Name) and f.value.id == "params")
+                    if not ok:
+                        out.append(f"execute_action: the `except Exception` handler calls `{ast.unparse(f)}` (line {n.lineno}): only `log.*` and `params.items()` are known to be total")
+                elif isinstance(n, (ast.Assert, ast.Await, ast.Yield, ast.YieldFrom)) or (isinstance(n, ast.BinOp) and isinstance(n.op, (ast.Div, ast.FloorDiv, ast.Mod))):
+                    out.append(f"execute_action: the `except Exception` handler contains a partial operation (line {n.lineno})")
     succ = [n for n in ast.walk(t) if isinstance(n, ast.Return) and isinstance(n.value, ast.Tuple) and len(n.value.elts) == 2
             and isinstance(n.value.elts[1], ast.Constant) and n.value.elts[1].value == "success"]
     if not succ or any(any(n is s for n in ast.walk(h)) for h in t.handlers for s in succ):
